@@ -329,6 +329,27 @@ pub fn run(tier: Tier) -> Run {
     let mut cs = c01::cases(tier);
     cs.extend(typed_constant_cases());
     cs.extend(ext_inst_cases());
+    // every word over the 21 instruction classes up to length 3, in any order (what a line looks like must not depend
+    // on its neighbours); the loader decides which of them are modules at all
+    {
+        use crate::checks::c05::SYMBOLS;
+        let mut layer: Vec<Vec<usize>> = vec![vec![]];
+        for _ in 0..3 {
+            let mut next = vec![];
+            for s in &layer {
+                for k in 0..SYMBOLS.len() {
+                    let mut t = s.clone();
+                    t.push(k);
+                    next.push(t);
+                }
+            }
+            for s in &next {
+                let insts: Vec<Inst> = s.iter().enumerate().map(|(i, &k)| rep_inst(SYMBOLS[k], i)).collect();
+                cs.push(Case { id: format!("{}:seq", insts.iter().map(|i| i.name()).collect::<Vec<_>>().join(",")), insts, raw: None, version: 0x0001_0000, bound: 1000 });
+            }
+            layer = next;
+        }
+    }
     let timed: Vec<(CaseOut, f64)> = cs
         .par_iter()
         .map(|c| {
